@@ -203,6 +203,21 @@ def set_char_len(desc: str, char_len: str) -> str:
     return f"{desc[:i_paren]}(len={length}, {kind[0]})"
 
 
+def find_comment_start(line: str, skip_column: int = -1) -> int:
+    """Index of the "!" that starts a trailing comment, -1 if there is none.
+    A "!" inside a character literal is not a comment"""
+    quote = ""
+    for i, char in enumerate(line):
+        if quote:
+            if char == quote:
+                quote = ""
+        elif char in ("'", '"'):
+            quote = char
+        elif char == "!" and i != skip_column:
+            return i
+    return -1
+
+
 def get_parameter_value(line: str) -> str:
     """The initialisation expression at the start of ``line``: up to the comma that
     separates the next entity, skipping parentheses, brackets and character literals
@@ -1216,9 +1231,14 @@ class FortranFile:
         if self.fixed:
             if FRegex.FIXED_COMMENT.match(line) and not FRegex.FIXED_OPENMP.match(line):
                 return ""
+            # A "!" in column 6 marks a continuation line
+            i_comment = find_comment_start(line, skip_column=5)
+        elif FRegex.FREE_OPENMP.match(line) is None:
+            i_comment = find_comment_start(line)
         else:
-            if FRegex.FREE_OPENMP.match(line) is None:
-                line = line.split("!")[0]
+            i_comment = -1
+        if i_comment >= 0:
+            line = line[:i_comment]
         return line
 
     def find_word_in_code_line(
